@@ -13,6 +13,34 @@ LEVEL_TEXT = ("Deductive: Parser.set_variable/get_variable/set_function on a map
 TRUSTED = ['listeners are host code (havoc); the registry is filled only by the decorators at import (frame obligation of C03)']
 
 
+def registration_decorator_obligations(repo):
+    """ the registration decorator stores and hands back the decorated function itself (the contracts on registered functions are
+        contracts on what the registry holds only because of this) """
+    import ast
+    path = os.path.join(repo, 'hotxlfp', 'formulas', '__init__.py')
+    tree = ast.parse(open(path, encoding='utf-8').read())
+    out = []
+    found = False
+    for n in ast.walk(tree):
+        if isinstance(n, ast.FunctionDef) and n.name == 'register_for':
+            inner = [x for x in n.body if isinstance(x, ast.FunctionDef)]
+            rets = [x for x in n.body if isinstance(x, ast.Return)]
+            if len(inner) != 1 or len(rets) != 1 or not (isinstance(rets[0].value, ast.Name) and rets[0].value.id == inner[0].name):
+                out.append(('registry.decorator-shape', False, 'register_for does not return its single inner function'))
+                continue
+            found = True
+            w = inner[0]
+            arg = w.args.args[0].arg if w.args.args else None
+            wrets = [x for x in ast.walk(w) if isinstance(x, ast.Return)]
+            same_back = len(wrets) == 1 and isinstance(wrets[0].value, ast.Name) and wrets[0].value.id == arg
+            stores = [x for x in ast.walk(w) if isinstance(x, ast.Assign) and isinstance(x.targets[0], ast.Subscript)]
+            stores_same = len(stores) >= 1 and all(isinstance(x.value, ast.Name) and x.value.id == arg for x in stores)
+            out.append(('registry.decorator-returns-the-function', same_back, 'the decorator hands back something other than the decorated function'))
+            out.append(('registry.decorator-registers-the-function', stores_same, 'the registry receives something other than the decorated function'))
+    out.append(('registry.decorator-found', found, 'Dispatcher.register_for'))
+    return out
+
+
 def extra(report, env):
     import z3
     from pyvc import lexre, lexer_facts, e2e
@@ -28,6 +56,7 @@ def extra(report, env):
     res = [('registry.documented-names-found', len(documented) >= 100, '%d names parsed from the first section' % len(documented))]
     for n in documented:
         res.append(('registry.%s' % n, n in names, 'documented but not registered'))
+    res.extend(registration_decorator_obligations(env['repo']))
     table_obligations(report, 'C09', res)
     # per-instance tables are created fresh in __init__ (shared with C03): a shared table would make names of one parser resolve on another
     from props.C03 import init_obligations
